@@ -149,7 +149,7 @@ func findLoop(P *Program) *loopParts {
 		}
 		for _, a := range call.Call.Args {
 			if p, ok := a.Type().Underlying().(*types.Pointer); ok && typeIs(p.Elem(), "sse", "Replayer") {
-				if lp.replayCell != nil && cellRoot(lp.replayCell) != cellRoot(a) {
+				if lp.replayCell != nil && !sameCell(lp.replayCell, a) {
 					lp.problems = append(lp.problems, "tryPut and tryReplay do not share one replayer variable")
 				}
 				lp.replayCell = a
@@ -761,17 +761,43 @@ func (lp *loopParts) isReplayLoad(v ssa.Value) bool {
 	if !ok || lp.replayCell != nil == false {
 		return false
 	}
-	if cellRoot(a) == cellRoot(lp.replayCell) {
+	if sameCell(a, lp.replayCell) {
 		return true
 	}
 	// through a pointer copy (`p := &replay; *p`), e.g. the parameter binding of an inlined helper
 	src := sources(a)
 	for _, sv := range src {
-		if cellRoot(sv) != cellRoot(lp.replayCell) {
+		if !sameCell(sv, lp.replayCell) {
 			return false
 		}
 	}
 	return len(src) > 0
+}
+
+// sameCell: two address values denote the same variable: the same local cell (through captures), or the
+// same field of the same receiver (`&j.replayer` is a fresh FieldAddr at every use).
+func sameCell(a, b ssa.Value) bool {
+	if a == nil || b == nil {
+		return false
+	}
+	if cellRoot(a) == cellRoot(b) {
+		return true
+	}
+	fa, okA := cellRoot(a).(*ssa.FieldAddr)
+	fb, okB := cellRoot(b).(*ssa.FieldAddr)
+	if !okA || !okB || fa.Field != fb.Field || fa.X.Type() != fb.X.Type() {
+		return false
+	}
+	if fa.X == fb.X {
+		return true
+	}
+	// both bases are the method's receiver (possibly through a spill cell)
+	pa, okPA := stripPhi(fa.X).(*ssa.Parameter)
+	pb, okPB := stripPhi(fb.X).(*ssa.Parameter)
+	if okPA && okPB && pa == pb {
+		return true
+	}
+	return carriesOnly(fa.X, fb.X) || carriesOnly(fb.X, fa.X)
 }
 
 func r04_2(c *Ctx) {
@@ -1007,6 +1033,45 @@ func r04_3(c *Ctx) {
 		c.undecided(name+":error-split", P.ipos(lp.tryReplay), "could not locate the `err != nil && !isPanic` split after Replay")
 		return
 	}
+	// a later branch on a flag that records the outcome (`accepted := true; … accepted = false … if accepted`)
+	// establishes the same facts again: only the first edge on each path is where the error is handled
+	{
+		var first []cfgEdge
+		for _, g := range genuine {
+			dominated := false
+			for _, h := range genuine {
+				if h == g {
+					continue
+				}
+				// g lies after h on a path within this trip round the loop (stop at the next select), and not the
+				// other way round
+				hasSelect := func(x *ssa.BasicBlock) bool {
+					for _, in := range x.Instrs {
+						if _, isSel := in.(*ssa.Select); isSel {
+							return true
+						}
+					}
+					return false
+				}
+				after := func(a, b cfgEdge) bool {
+					start := a.From.Succs[a.Idx]
+					if hasSelect(start) {
+						return false
+					}
+					return reach([]*ssa.BasicBlock{start}, nil, hasSelect)[b.From]
+				}
+				if after(h, g) && !after(g, h) {
+					dominated = true
+				}
+			}
+			if !dominated {
+				first = append(first, g)
+			}
+		}
+		if len(first) > 0 {
+			genuine = first
+		}
+	}
 	for _, g := range genuine {
 		blocked[g] = true
 	}
@@ -1028,6 +1093,28 @@ func r04_3(c *Ctx) {
 			return cont
 		}, blocked)
 		skip = off != nil
+	}
+	// the subscription is registered as it was received: Joe's code never writes a field of a Subscription
+	// (topics defaulted, an ID cleared or rewritten, another client)
+	{
+		var w ssa.Instruction
+		for _, f := range P.Funcs {
+			if !isJoeCode(P, f) {
+				continue
+			}
+			eachInstr(f, func(in ssa.Instruction) {
+				if st, ok := in.(*ssa.Store); ok && w == nil {
+					if o, _, _, ok := fieldSel(st.Addr); ok && o == "Subscription" {
+						w = st
+					}
+				}
+			})
+		}
+		pos := P.ipos(insert)
+		if w != nil {
+			pos = P.ipos(w)
+		}
+		c.check(w == nil, name+":subscription-unchanged", pos, "no store into a field of a Subscription in Joe's code", "Joe writes a field of the subscription it was given (e.g. defaults empty topics): the subscriber is registered with other topics, ID or client than it asked for")
 	}
 	c.check(!skip, name+":registers", P.ipos(insert), "every path without a genuine replay error registers the subscriber before the next select", "a path without a genuine replay error reaches the next select without registering the subscriber: it would never receive live events")
 	// (2) on a genuine error: send error on its done, close it, no insert
@@ -1275,9 +1362,16 @@ func r07_4(c *Ctx) {
 		name := fnLabel(fn) + ":close(j.done)"
 		// dominated by a defer of a closure that recovers and assigns ErrProviderClosed to the result
 		good := false
+		nestedDefer := false
 		eachInstrDeep(fn, func(d ssa.Instruction) {
 			df, ok := d.(*ssa.Defer)
 			if !ok || !instrDominates(df, in) {
+				return
+			}
+			if df.Parent() != fn {
+				// a recover scoped to a nested literal ends the panic there: Shutdown then carries on into its wait
+				// and returns whatever that yields (its context's error) instead of ErrProviderClosed
+				nestedDefer = true
 				return
 			}
 			var f *ssa.Function
@@ -1319,7 +1413,8 @@ func r07_4(c *Ctx) {
 				_ = par
 			}
 		}
-		c.check(good, name, P.ipos(in), "close(j.done) is covered by a deferred recover that reports ErrProviderClosed",
+		_ = nestedDefer
+		c.check(good, name, P.ipos(in), "close(j.done) is covered by a recover deferred by Shutdown itself that reports ErrProviderClosed",
 			"close(j.done) is not covered by a deferred recover()/ErrProviderClosed: a second or concurrent Shutdown panics with close of closed channel")
 	})
 	if n == 0 {
@@ -1368,6 +1463,47 @@ func r07_4(c *Ctx) {
 
 func r07_5(c *Ctx) {
 	P := c.P
+	// the initialiser touches Joe's state only inside the Once callback (a fast path that reads a field first is
+	// an unsynchronised read of a half-initialised Joe)
+	for _, fn := range P.Funcs {
+		if fn.Parent() != nil || fn.Signature.Recv() == nil || !typeIs(fn.Signature.Recv().Type(), "sse", "Joe") || !callsOnceDo(fn) || fn.Synthetic != "" {
+			continue
+		}
+		var early ssa.Instruction
+		eachInstr(fn, func(in ssa.Instruction) {
+			v, ok := in.(ssa.Value)
+			if !ok || early != nil {
+				return
+			}
+			if o, n, _, ok := fieldOfLoad(v); ok && o == "Joe" && n != "initDone" {
+				early = in
+			}
+		})
+		pos := P.pos(fn.Pos())
+		if early != nil {
+			pos = P.ipos(early)
+		}
+		c.check(early == nil, fnLabel(fn)+":only-once-do", pos, "the initialiser reads no field of Joe outside the sync.Once callback", "the initialiser reads a field of Joe before (outside) the sync.Once: a concurrent first caller can see a half-initialised Joe and then block for ever on a nil channel, or Shutdown recovers close(nil) and reports ErrProviderClosed although nothing was shut down")
+	}
+	// Joe's request channels are never closed (a Subscribe or Publish parked on a send would panic); only the two
+	// signal channels done and closed are
+	for _, fn := range P.Funcs {
+		if !isJoeCode(P, fn) {
+			continue
+		}
+		eachInstr(fn, func(in ssa.Instruction) {
+			cl, ok := isBuiltin(in, "close")
+			if !ok {
+				return
+			}
+			a := cl.Common().Args[0]
+			for _, f := range []string{"message", "subscription", "unsubscription"} {
+				if isJoeField(a, f) {
+					c.bad(fnLabel(fn)+":close(j."+f+")", P.ipos(in), "Joe's request channel "+f+" is closed: a caller parked on a send to it (Subscribe's unsubscription hand-off, Publish) panics with send on closed channel")
+				}
+			}
+		})
+	}
 	for _, fn := range P.Funcs {
 		if fn.Parent() != nil || fn.Signature.Recv() == nil || !typeIs(fn.Signature.Recv().Type(), "sse", "Joe") {
 			continue
